@@ -82,8 +82,12 @@ def readFramesAtTime(
     params = audiofile.getparams()
     frameRate = params[2]
 
-    audiofile.setpos(round(frameRate * startTime))
-    frames = audiofile.readframes(round(frameRate * (endTime - startTime)))
+    # Round both ends to the nearest frame (as Wav.getFrames does) instead of
+    # rounding the duration: off a frame boundary the two disagree by a frame
+    startFrame = round(frameRate * startTime)
+    endFrame = round(frameRate * endTime)
+    audiofile.setpos(startFrame)
+    frames = audiofile.readframes(max(endFrame - startFrame, 0))
 
     return frames
 
